@@ -6,6 +6,7 @@ mod c13;
 mod emit;
 mod emit_c02;
 mod plan;
+mod probes;
 mod props;
 mod run;
 
